@@ -280,7 +280,14 @@ func (a *admDriver) block() {
 			base = b
 		}
 		_, isOpen := open[fi]
-		for _, v := range senders {
+		sims := a.env.Int("sims", 0) == 1
+		if sims && isOpen && a.rng.Chance(1, 4) { // simulations before this block's deliveries for the feeder (dom_oracle_sim.go)
+			a.simBatch(fi, base)
+		}
+		for vi, v := range senders {
+			if sims && isOpen && vi > 0 && a.rng.Chance(1, 24) { // … and between them
+				a.simBatch(fi, base)
+			}
 			p := 1
 			if isOpen && v < 50 {
 				p = 8
@@ -360,6 +367,9 @@ func (a *admDriver) block() {
 					a.send(orcTx{Msgs: []orcMsg{a.honestMsg(v, fi, base)}}, open, "")
 				}
 			}
+		}
+		if sims && a.rng.Chance(1, 8) { // … and after them (also for a feeder without an open round)
+			a.simBatch(fi, base)
 		}
 	}
 }
@@ -570,6 +580,9 @@ func domOracleC13(env *Env) error {
 	if env.Int("valset", 0) == 1 {
 		directedDeparted(env, "C13.counted")
 		directedDepartedNonce(env)
+	}
+	if env.Int("sims", 0) == 1 {
+		directedSimulated(env)
 	}
 	if env.Int("paramsupd", 0) == 1 {
 		directedRules(env)
